@@ -39,6 +39,7 @@ struct Block
     uint64_t seq{};
     unsigned char* raw{};
     std::size_t raw_bytes{};
+    bool is_table{};  // value_type is std::size_t: the element address table of a VaryingSize vector
 };
 
 struct SoftError
@@ -59,6 +60,7 @@ struct Ledger
     long fail_countdown{-1};  // k>0: the k-th allocation from now throws
     bool always_equal_mode{};
     uint32_t junk{};
+    std::size_t op_max_data_bytes{};  // largest non-table block requested since the runner last reset it
     std::vector<SoftError> errors;
     void (*on_release)(const unsigned char* lo, const unsigned char* hi){};  // lets the tracked registry see frees
 
@@ -78,10 +80,25 @@ struct Ledger
         seq = n_alloc = n_dealloc = bytes_alloc = bytes_dealloc = 0;
         fail_countdown = -1;
         junk = junk_seed;
+        op_max_data_bytes = 0;
         errors.clear();
     }
 
-    void* allocate(std::size_t n, std::size_t tsize, std::size_t talign, int arena)
+    // drop the blocks of a scratch arena from the books (used by probes that must not count as traffic)
+    void forget_arena(int arena)
+    {
+        for (auto it = live.begin(); it != live.end();)
+            if (it->second.arena == arena)
+            {
+                VF_UNPOISON(it->second.raw, it->second.raw_bytes);
+                std::free(it->second.raw);
+                it = live.erase(it);
+            }
+            else
+                ++it;
+    }
+
+    void* allocate(std::size_t n, std::size_t tsize, std::size_t talign, int arena, bool is_table = false)
     {
         if (fail_countdown > 0 && --fail_countdown == 0)
         {
@@ -107,8 +124,9 @@ struct Ledger
             if ((i & 7) == 0) s = mix64(s);
             user[i] = static_cast<unsigned char>(s >> ((i & 7) * 8));
         }
-        Block b{user, bytes, tsize, talign, arena, seq++, raw, raw_bytes};
+        Block b{user, bytes, tsize, talign, arena, seq++, raw, raw_bytes, is_table};
         live[p] = b;
+        if (!is_table && bytes > op_max_data_bytes) op_max_data_bytes = bytes;
         ++n_alloc;
         bytes_alloc += bytes;
         VF_POISON(raw, static_cast<std::size_t>(user - raw));
@@ -209,7 +227,7 @@ struct LedgerAlloc
     {
     }
 
-    T* allocate(std::size_t n) { return static_cast<T*>(ledger().allocate(n, sizeof(T), alignof(T), arena)); }
+    T* allocate(std::size_t n) { return static_cast<T*>(ledger().allocate(n, sizeof(T), alignof(T), arena, std::is_same_v<T, std::size_t>)); }
     void deallocate(T* p, std::size_t n) noexcept { ledger().deallocate(p, n, sizeof(T), arena); }
 
     LedgerAlloc select_on_container_copy_construction() const noexcept
